@@ -3398,11 +3398,34 @@ def race_scn_sig(scn, run):
             "".join(d[1] for d in run.decisions))
 
 
+_RACE_MISSING = None
+
+
+def race_private_missing():
+    """private fields the access-level instrumentation announces by NAME; a rewrite that renames one of them keeps the
+    behaviour but makes the per-access comparison with the model meaningless (fewer announced accesses): the schedules
+    are then still run and judged by the direct oracle, the model comparison is skipped and counted in the evidence"""
+    global _RACE_MISSING
+    if _RACE_MISSING is None:
+        try:
+            from perceval.runtime import LocalJob
+            from perceval.runtime.job_status import JobStatus
+            miss = [n for n in ("_status", "_stop_message", "_running_progress") if n not in vars(JobStatus())]
+            miss += [n for n in ("_cancel_requested", "_results", "_worker") if n not in vars(LocalJob(lambda: None))]
+        except Exception as e:      # constructors changed: leave the comparison on, it will say what differs
+            miss = []
+        _RACE_MISSING = miss
+    return _RACE_MISSING
+
+
 def race_judge(chk, scn, run, reps):
     """-> None | (kind, sig, what, index)"""
     v = race_oracle(scn, run)
     if v is not None:
         return "violation", v[0], v[1], None
+    if race_private_missing():
+        chk.count("private_members_missing", "race:" + ",".join(race_private_missing()))
+        return None
     cmp_t = race_compare(run, reps[0])
     if cmp_t is None:
         return None
